@@ -43,11 +43,11 @@ type stream struct {
 	maxRead   int   // per-Read cap (0 = none)
 	readSizes []int // scripted caps for the next reads
 
-	rec    []byte
-	marks  []Mark
-	calls  int
+	rec      []byte
+	marks    []Mark
+	calls    int
 	closedAt time.Time
-	reads  int
+	reads    int
 }
 
 func newStream() *stream {
